@@ -151,9 +151,12 @@ def run(ctx):
     cov = not quick
     # unbounded in depth: the uniqueness invariant of the id counter is inductive (Apalache), and the same
     # obligation fails for the unsynchronised read/write pair (spec/proofs/CidCounter.tla)
-    ctx.apalache("proofs", "CidCounter", "apalache_atomic.cfg", "Init", "IndInv", 0)
-    ctx.apalache("proofs", "CidCounter", "apalache_atomic.cfg", "IndInit", "IndInv", 1)
-    ctx.apalache("proofs", "CidCounter", "apalache_nonatomic.cfg", "IndInit", "IndInv", 1, expect_error=True)
+    # and for any number of processes: the same argument as a machine-checked TLAPS proof (Spec => []Unique)
+    ctx.tlapm("proofs", "CidCounterProof")
+    if not quick:
+        ctx.apalache("proofs", "CidCounter", "apalache_atomic.cfg", "Init", "IndInv", 0)
+        ctx.apalache("proofs", "CidCounter", "apalache_atomic.cfg", "IndInit", "IndInv", 1)
+        ctx.apalache("proofs", "CidCounter", "apalache_nonatomic.cfg", "IndInit", "IndInv", 1, expect_error=True)
     ctx.tlc("logger", "LoggerCid", "MC_LoggerCid_ids.cfg", coverage=cov)
     ctx.tlc("logger", "LoggerCid", "MC_LoggerCid_lines.cfg", coverage=cov)
     ctx.tlc("logger", "LoggerCid", "MC_LoggerCid.quick.cfg", coverage=cov)
